@@ -616,3 +616,23 @@ func (s *Session) StepsTaken() int {
 	defer s.mu.Unlock()
 	return s.next
 }
+
+// TakeSteps removes up to k not yet delivered plan steps that type bytes (used for type-ahead
+// delivered by the emulator together with a cursor report). Fault/exit steps are never taken.
+func (s *Session) TakeSteps(k int) []Step {
+	s.mu.Lock()
+	defer s.mu.Unlock()
+	var out []Step
+	for len(out) < k && s.next < len(s.plan) {
+		st := s.plan[s.next]
+		if st.EOF || st.EIO || st.Do != "" {
+			break
+		}
+		out = append(out, st)
+		s.next++
+	}
+	for _, st := range out {
+		s.outstanding += len(st.W)
+	}
+	return out
+}
